@@ -312,7 +312,7 @@ impl GenericsAnalyzer {
             if index != matching_index && !(matches!(param, &syn::GenericParam::Lifetime(_))) {
                 // what is lifted to the trait may mention the deps parameter as well:
                 use syn::visit_mut::VisitMut;
-                let mut param = lifted_param(param, generics);
+                let mut param = lifted_param(param, generics, Some(generic_param_ident));
                 crate::signature::DepsParamToSelf(generic_param_ident, false)
                     .visit_generic_param_mut(&mut param);
                 self.lift_param(param);
@@ -465,7 +465,7 @@ impl GenericsAnalyzer {
         for param in &generics.params {
             match param {
                 syn::GenericParam::Type(_) => {
-                    self.lift_param(lifted_param(param, generics));
+                    self.lift_param(lifted_param(param, generics, None));
                 }
                 syn::GenericParam::Const(_) => {
                     self.lift_param(param.clone());
@@ -511,15 +511,33 @@ pub(crate) fn mentions_lifetime_param(
     false
 }
 
+/// Whether the tokens mention the identifier (the dependency's type parameter)
+pub(crate) fn mentions_ident(stream: proc_macro2::TokenStream, ident: &syn::Ident) -> bool {
+    stream.into_iter().any(|token| match token {
+        proc_macro2::TokenTree::Ident(token) => token == *ident,
+        proc_macro2::TokenTree::Group(group) => mentions_ident(group.stream(), ident),
+        _ => false,
+    })
+}
+
 /// A type or const parameter of the fn as a parameter of the trait. A bound that mentions
-/// one of the fn's lifetime parameters stays on the method, where that lifetime is declared.
-fn lifted_param(param: &syn::GenericParam, generics: &syn::Generics) -> syn::GenericParam {
+/// one of the fn's lifetime parameters stays on the method, where that lifetime is declared;
+/// one that mentions the dependency's type parameter does too (`Self: Sized` can be required there).
+fn lifted_param(
+    param: &syn::GenericParam,
+    generics: &syn::Generics,
+    deps_param: Option<&syn::Ident>,
+) -> syn::GenericParam {
     let mut param = param.clone();
     if let syn::GenericParam::Type(type_param) = &mut param {
         type_param.bounds = std::mem::take(&mut type_param.bounds)
             .into_iter()
             .filter(|bound| {
-                !mentions_lifetime_param(quote::ToTokens::to_token_stream(bound), generics)
+                let tokens = quote::ToTokens::to_token_stream(bound);
+                !mentions_lifetime_param(tokens.clone(), generics)
+                    && !deps_param
+                        .map(|ident| mentions_ident(tokens, ident))
+                        .unwrap_or(false)
             })
             .collect();
         if type_param.bounds.is_empty() {
